@@ -11,6 +11,25 @@ def od_keys(h, d):
     return h.f(d, "$okeys")
 
 
+def cv_domain(S_, h, v):
+    """what the store can hold (the cleaning contracts let nothing else in): a primitive (bool, int, float, text), or a
+    builtin list / tuple of primitives; no dictionaries, no nested sequences"""
+    j = z3.Int("j!cvd")
+    return And(Or(Not(Val.is_VRef(v)),
+                  And(Val.r(v) > 0, Val.r(v) < h.snap.next_id,
+                      Or(h.typeof(v) == S_.cid("tuple"), h.typeof(v) == S_.cid("list")), h.llen(v) >= 0)),
+               z3.ForAll([j], Implies(And(Val.is_VRef(v), j >= 0, j < h.llen(v)), Not(Val.is_VRef(h.lget(v, j))))))
+
+
+def attrs_domain(S_, h, a):
+    """every key is text and every value a cleaned value"""
+    d = h.f(a, "_dict")
+    keys = h.f(d, "$okeys")
+    j = z3.Int("j!atdom")
+    return z3.ForAll([j], Implies(And(j >= 0, j < h.llen(keys)), And(
+        Val.is_VStr(h.lget(keys, j)), cv_domain(S_, h, h.dget(d, h.lget(keys, j))))))
+
+
 @class_invariant("BoundedAttributes")
 def inv_ba(S_, a):
     h = S_.new
@@ -19,6 +38,7 @@ def inv_ba(S_, a):
     keys = od_keys(h, d)
     j, k = z3.Int("j!ba"), z3.Int("k!ba")
     return And(
+        attrs_domain(S_, h, a),
         S_.pre(d, "OrderedDict"), S_.pre(keys, "list"), h.llen(keys) == h.dlen(d), h.llen(keys) >= 0,
         Or(Val.is_VNone(ml), And(Val.is_VInt(ml), iv(ml) >= 0)),
         Val.is_VInt(h.f(a, "dropped")), iv(h.f(a, "dropped")) >= 0,
